@@ -282,9 +282,10 @@ func (C11) Generate(c *Ctx, r *Rand, index int) *Scenario {
 }
 
 var (
-	goroutineHdr = regexp.MustCompile(`(?m)^goroutine \d+ [^\n]*\[[^\]]*\]:$`)
-	digitsRe     = regexp.MustCompile(`\d+`)
-	hexRe        = regexp.MustCompile(`0x[0-9a-f]+`)
+	goroutineHdr     = regexp.MustCompile(`(?m)^goroutine \d+ [^\n]*\[[^\]]*\]:$`)
+	mainGoroutineHdr = regexp.MustCompile(`(?m)^goroutine 1 [^\n]*\[[^\]]*\]:$`)
+	digitsRe         = regexp.MustCompile(`\d+`)
+	hexRe            = regexp.MustCompile(`0x[0-9a-f]+`)
 )
 
 // PanicSite extracts (message class, first yq frame) from a goroutine dump.
@@ -324,6 +325,13 @@ func PanicSite(stderr string) (class, site string) {
 	loc := goroutineHdr.FindStringIndex(stderr)
 	if loc == nil {
 		return
+	}
+	if strings.Contains(stderr, "fatal error: ") {
+		// a fatal error is reported from whichever goroutine hit it (often a GC worker):
+		// the evaluation itself always runs on goroutine 1
+		if m := mainGoroutineHdr.FindStringIndex(stderr); m != nil {
+			loc = m
+		}
 	}
 	first := ""
 	for _, line := range strings.Split(stderr[loc[1]:], "\n") {
@@ -371,6 +379,9 @@ func RecursionEntry(stderr string) string {
 	loc := goroutineHdr.FindStringIndex(stderr)
 	if loc == nil {
 		return "unknown"
+	}
+	if m := mainGoroutineHdr.FindStringIndex(stderr); m != nil {
+		loc = m
 	}
 	entry := "unknown"
 	fallback := ""
